@@ -72,6 +72,8 @@ type GoFailure struct {
 	What   string      `json:"what"`
 	Input  interface{} `json:"input"`
 	Detail string      `json:"detail"`
+	// Tags are matched against KNOWN_FINDINGS.json signatures by ./check (optional)
+	Tags []string `json:"tags,omitempty"`
 }
 
 type Writer struct {
